@@ -181,6 +181,9 @@ func (v *Voucher) DevicePublicKey() (crypto.PublicKey, error) {
 	if len(*v.CertChain) == 0 {
 		return nil, errors.New("empty cert chain")
 	}
+	if (*v.CertChain)[0] == nil {
+		return nil, errors.New("cert chain contains a null certificate")
+	}
 	return (*v.CertChain)[0].PublicKey, nil
 }
 
@@ -210,6 +213,9 @@ func (v *Voucher) VerifyDeviceCertChain(roots *x509.CertPool) error {
 	}
 	chain := make([]*x509.Certificate, len(*v.CertChain))
 	for i, cert := range *v.CertChain {
+		if cert == nil {
+			return errors.New("cert chain contains a null certificate")
+		}
 		chain[i] = (*x509.Certificate)(cert)
 	}
 	return verifyCertChain(chain, roots)
@@ -229,6 +235,9 @@ func (v *Voucher) VerifyCertChainHash() error {
 	cchash := v.Header.Val.CertChainHash
 	digest := cchash.Algorithm.HashFunc().New()
 	for _, cert := range *v.CertChain {
+		if cert == nil {
+			return errors.New("cert chain contains a null certificate")
+		}
 		if _, err := digest.Write(cert.Raw); err != nil {
 			return fmt.Errorf("error computing hash: %w", err)
 		}
